@@ -68,6 +68,9 @@ def run(tier):
         selftest(recs, wd)
     else:
         rep.notes.append("self-test skipped: violation list capped")
+    # specification growth hosted here (bucket refresh / attack-mode bookkeeping): conformance, informational (MODEL-DRIFT, never a VIOLATION)
+    import growth_refresh
+    growth_refresh.run(rep, wd, big)
     return rep.finish(
         rule="a case = (configuration, mode, candidate trust, witness vector) given to the real validate_membership, plus each "
              "one-flip neighbour; families: property grid, fraction boundary, f-liars, unanimous (+ one premise broken), random "
